@@ -621,6 +621,12 @@ func (b *BaseStore) Load(ctx context.Context, amount int) error {
 					continue
 				}
 
+				// nor an entry fetched under an address that is not the address of
+				// its content (Sync and the replicator refuse it the same way)
+				if canonical, err := b.IO().Write(ctx, b.IPFS(), e, nil); err != nil || !canonical.Equals(e.GetHash()) {
+					continue
+				}
+
 				if provider := b.Identity().Provider; provider != nil {
 					if err := b.AccessController().CanAppend(e, provider, &CanAppendContext{log: oplog}); err != nil {
 						continue
@@ -936,6 +942,10 @@ func (b *BaseStore) LoadFromSnapshot(ctx context.Context) error {
 	var own []ipfslog.Entry
 	for _, e := range log.GetEntries().Slice() {
 		if e.GetLogID() != oplog.GetID() {
+			continue
+		}
+
+		if canonical, err := b.IO().Write(ctx, b.IPFS(), e, nil); err != nil || !canonical.Equals(e.GetHash()) {
 			continue
 		}
 
